@@ -1,6 +1,6 @@
 (** Property C14 — the theorems the check counts as obligations.  Nothing but
     statements closed by [exact] and [Print Assumptions]. *)
-From HS Require Import Base.Prelude C14.Model C14.LsmProofs C14.ConcProofs C14.KvTxnModel C14.KvTxnProofs.
+From HS Require Import Base.Prelude C14.Model C14.LsmProofs C14.ConcProofs C14.KvTxnModel C14.KvTxnProofs C14.BtModel C14.BtProofs.
 Local Open Scope Z_scope.
 
 (** LSM tree, sequential operations: after ANY sequence of put/delete (any
@@ -78,3 +78,10 @@ Print Assumptions c14_occ_serializable.
 Theorem c14_si_snapshot_refuted : ~ si_statement.
 Proof. exact si_snapshot_refuted. Qed.
 Print Assumptions c14_si_snapshot_refuted.
+
+(** B-tree, overlapping operations: REFUTED (known finding
+    C14-btree-get-overlaps-split).  The B-tree's sequential refinement of a
+    map is not proved (correspondence and oracle only). *)
+Theorem c14_btree_overlap_refuted : ~ bt_overlap_statement.
+Proof. exact bt_overlap_refuted. Qed.
+Print Assumptions c14_btree_overlap_refuted.
